@@ -57,11 +57,19 @@ Definition show_fields (es : list ie) : string :=
 Definition show_hdr (h : hdr) : string :=
   show_N (h_len h) ++ " " ++ show_N (h_time h) ++ " " ++ show_N (h_seq h) ++ " " ++ show_N (h_obs h).
 
+(* which elements the delivered values belong to (the records of one set share one template:
+   the first record's elements are shown) *)
+Definition show_idents (rs : list (list (ie * value))) : string :=
+  match rs with
+  | [] => ""
+  | r :: _ => " E" ++ String.concat "" (map (fun ev => " " ++ show_field (fst ev)) r)
+  end.
+
 (* an outcome as (class, payload): shown "class payload" *)
 Definition show_msg (m : msg) : string * string :=
   match m with
   | TemplateMsg h tid es => ("tpl", show_hdr h ++ " " ++ show_N tid ++ " " ++ show_fields es)
-  | DataMsg h tid rs => ("data", show_hdr h ++ " " ++ show_records rs)
+  | DataMsg h tid rs => ("data", show_hdr h ++ " " ++ show_records rs ++ show_idents rs)
   end.
 Definition show_outcome (o : outcome msg) : string * string :=
   match o with
